@@ -1496,6 +1496,32 @@ func (e *nenum) helperOf(fr *nframe, ce *ast.CallExpr) *ast.FuncDecl {
 				}
 			}
 		}
+		if d == nil {
+			// a method called on a parameter of the function being walked (chr.contains(r) in parseCharClassMatcher(chr)):
+			// resolved by its name when the package has exactly one method of that name
+			if id, ok := f.X.(*ast.Ident); ok && fr.fd != nil && fr.fd.Type.Params != nil {
+				for _, pf := range fr.fd.Type.Params.List {
+					for _, nm := range pf.Names {
+						if nm.Name == id.Name {
+							d = e.c.funcs["."+f.Sel.Name]
+						}
+					}
+				}
+			}
+		}
+		if d == nil {
+			// a method called on a field or an element (p.pt.atEOF(), p.rstack[i].label()): resolved by its name when
+			// the package has exactly one method of that name
+			switch stripParens(f.X).(type) {
+			case *ast.SelectorExpr, *ast.IndexExpr:
+				// … and only a test or accessor given a name: a body that is a single return
+				if m := e.c.funcs["."+f.Sel.Name]; m != nil && m.Body != nil && len(m.Body.List) == 1 {
+					if _, isRet := m.Body.List[0].(*ast.ReturnStmt); isRet {
+						d = m
+					}
+				}
+			}
+		}
 	}
 	if d == nil || d.Body == nil || e.inlining[d] || fr.level >= 4 || (fr.level >= 3 && !isClosure) || e.c.noInline[d.Name.Name] {
 		return nil
@@ -1665,6 +1691,17 @@ func (e *nenum) hoistArgs(fr *nframe, ce *ast.CallExpr) *ast.CallExpr {
 	for i, a := range ce.Args {
 		ac, ok := stripParens(a).(*ast.CallExpr)
 		if !ok {
+			// a helper call inside a concatenation (`"rule " + label(r)`): the operands are looked at in turn
+			if be, isBin := stripParens(a).(*ast.BinaryExpr); isBin && be.Op == token.ADD {
+				if nb := e.hoistOperands(fr, be); nb != be {
+					if out == nil {
+						cp := *ce
+						cp.Args = append([]ast.Expr{}, ce.Args...)
+						out = &cp
+					}
+					out.Args[i] = nb
+				}
+			}
 			continue
 		}
 		d := e.helperOf(fr, ac)
@@ -1687,6 +1724,41 @@ func (e *nenum) hoistArgs(fr *nframe, ce *ast.CallExpr) *ast.CallExpr {
 		return ce
 	}
 	return out
+}
+
+// hoistOperands: the operands of a + chain that are calls of package helpers with a body of their own are computed
+// first, left to right.
+func (e *nenum) hoistOperands(fr *nframe, be *ast.BinaryExpr) *ast.BinaryExpr {
+	side := func(x ast.Expr) ast.Expr {
+		switch v := stripParens(x).(type) {
+		case *ast.BinaryExpr:
+			if v.Op == token.ADD {
+				if nb := e.hoistOperands(fr, v); nb != v {
+					return nb
+				}
+			}
+		case *ast.CallExpr:
+			d := e.helperOf(fr, v)
+			if d == nil || d.Type.Results == nil || len(d.Type.Results.List) != 1 || len(d.Type.Results.List[0].Names) > 1 || (len(d.Body.List) < 2 && e.closureLex[d] == nil) {
+				return x
+			}
+			*e.counter++
+			name := fmt.Sprintf("hoisted%d", *e.counter)
+			id := ast.NewIdent(name)
+			fr.multi[name] = fmt.Sprintf("$%d", *e.counter)
+			e.inline(fr, e.hoistArgs(fr, v), d, []ast.Expr{id}, token.ASSIGN, false)
+			return id
+		}
+		return x
+	}
+	l := side(be.X)
+	r := side(be.Y)
+	if l == be.X && r == be.Y {
+		return be
+	}
+	cp := *be
+	cp.X, cp.Y = l, r
+	return &cp
 }
 
 // hoistLits: a helper with a body of its own that is called for the value of a field in a composite literal on the
@@ -2095,7 +2167,7 @@ func (e *nenum) stmt(fr *nframe, s ast.Stmt) {
 	case *ast.ExprStmt:
 		if ce, ok := x.X.(*ast.CallExpr); ok {
 			if d := e.helperOf(fr, ce); d != nil {
-				e.inline(fr, ce, d, nil, token.ILLEGAL, false)
+				e.inline(fr, e.hoistArgs(fr, ce), d, nil, token.ILLEGAL, false)
 				return
 			}
 			e.calls(fr, e.hoistArgs(fr, ce))
@@ -2129,10 +2201,30 @@ func (e *nenum) stmt(fr *nframe, s ast.Stmt) {
 						}
 					}
 					if inlinable {
-						e.inline(fr, ce, d, x.Lhs, x.Tok, false)
+						e.inline(fr, e.hoistArgs(fr, ce), d, x.Lhs, x.Tok, false)
 						return
 					}
 				}
+			}
+		}
+		// helper calls with a body of their own among the arguments of a call on the right-hand side are computed first
+		// (`xs = append(xs, label(w))` reads like `t := label(w); xs = append(xs, t)`)
+		{
+			var rhs []ast.Expr
+			for i, r := range x.Rhs {
+				if ce, ok := stripParens(r).(*ast.CallExpr); ok {
+					if h := e.hoistArgs(fr, ce); h != ce {
+						if rhs == nil {
+							rhs = append([]ast.Expr{}, x.Rhs...)
+						}
+						rhs[i] = h
+					}
+				}
+			}
+			if rhs != nil {
+				cp := *x
+				cp.Rhs = rhs
+				x = &cp
 			}
 		}
 		for _, r := range x.Rhs {
@@ -2252,6 +2344,25 @@ func (e *nenum) stmt(fr *nframe, s ast.Stmt) {
 			if hoisted != nil {
 				cp := *x
 				cp.Results = hoisted
+				x = &cp
+			}
+		}
+		// … and so are helper calls among the arguments of a call that is returned (`return strings.Join(texts(e), sep)`)
+		{
+			var res []ast.Expr
+			for i, r := range x.Results {
+				if ce, ok := stripParens(r).(*ast.CallExpr); ok {
+					if h := e.hoistArgs(fr, ce); h != ce {
+						if res == nil {
+							res = append([]ast.Expr{}, x.Results...)
+						}
+						res[i] = h
+					}
+				}
+			}
+			if res != nil {
+				cp := *x
+				cp.Results = res
 				x = &cp
 			}
 		}
